@@ -25,14 +25,23 @@ def obs (s : St) (op : Op) : St × String :=
     | _ => "-"
   (s', s!"{o}/{s'.queue.length}")
 
+/-- `start_new_generation` computes `discriminant + 1` on a `u64` while it holds the resources lock: at `u64::MAX` the
+overflow-checked build panics there and poisons the mutex, after which `count()` and every call that locks the
+resources fail: printed `p` from that call on. (The production profile wraps to 0 instead: generation 0 again.) -/
 def runReq (r : Req) : Option String := do
   let size ← r.nat "size"
   let init ← r.nats "init"
   let ops ← (← r.list "ops").mapM parseOp
   let s0 : St := { size, disc := 0, queue := init.map (⟨·⟩), held := [] }
-  let (_, out) := ops.foldl (fun (acc : St × List String) op =>
-    let (s', o) := obs acc.1 op
-    (s', o :: acc.2)) (s0, [])
+  let (_, _, out) := ops.foldl (fun (acc : St × Bool × List String) op =>
+    let (s, poisoned, outs) := acc
+    if poisoned then (s, true, "p" :: outs)
+    else
+      match op with
+      | .newGen =>
+        if s.disc + 1 ≥ 2 ^ 64 then (s, true, "p" :: outs)
+        else let (s', o) := obs s op; (s', false, o :: outs)
+      | _ => let (s', o) := obs s op; (s', false, o :: outs)) (s0, false, [])
   pure (String.intercalate ";" out.reverse)
 
 /-- the calls `compute_cache` of both provers makes on the pool, in order (the harness extracts them from the
